@@ -109,6 +109,9 @@ def run(s):
                 pdocs = [docs[j] for j in perm]
                 # file / key names must not leak the order
                 names = ['n%03d.mos.xml' % name_rank[j] for j in perm]
+                if i % 4 == 1:
+                    # one file name, one directory (or key prefix) per message
+                    names = ['d%03d/message.mos.xml' % name_rank[j] for j in perm]
                 mc, cerr = K.make_collection(s, pdocs, how, True, tmpdir, names=names)
                 wit = {'type': 'perm', 'docs': pdocs, 'how': how}
                 s.evaluations += 1
@@ -129,17 +132,21 @@ def run(s):
                 s.note_sig((how, n, lexical_differs, 'identity' if list(perm) == sorted(perm) else
                             'reversed' if list(perm) == sorted(perm, reverse=True) else 'other', len(texts)))
             # sorting MosFile objects
-            objs = [s.load(d) for d in docs]
+            # ... also when they belong to several running orders, or carry a blank running-order ID
+            mixed = i % 2 == 1
+            sdocs = [d.replace('<roID>RO</roID>', rng.choice(['<roID>RO</roID>', '<roID>AA</roID>', '<roID>ZZ</roID>',
+                                                               '<roID/>']), 1) if mixed else d for d in docs]
+            objs = [s.load(d) for d in sdocs]
             rng.shuffle(objs)
             try:
                 got = [o.message_id for o in sorted(objs)]
             except Exception as e:
                 got = type(e).__name__
             s.evaluations += 1
-            s.note_sig(('sorted-mosfiles', n, lexical_differs, got == numeric))
+            s.note_sig(('sorted-mosfiles', n, lexical_differs, mixed, got == numeric))
             if got != numeric:
                 s.custom_violation('sorted-MosFile-objects-not-numeric', {'got': got, 'want': numeric},
-                                   {'type': 'perm', 'docs': docs, 'how': 'sorted'})
+                                   {'type': 'perm', 'docs': sdocs, 'how': 'sorted'})
             if len(s.samples) < 3 and lexical_differs:
                 s.samples.append({'constructor': how, 'numeric_message_ids': numeric,
                                   'message_id_texts': [K.message_id_of(d) for d in docs],
@@ -158,7 +165,10 @@ def replay(s, data):
         docs = w['docs']
         if w.get('how') == 'sorted':
             objs = [s.load(d) for d in reversed(docs)]
-            got = [o.message_id for o in sorted(objs)]
+            try:
+                got = [o.message_id for o in sorted(objs)]
+            except Exception as e:
+                got = type(e).__name__
             want = sorted(K.message_id_of(d) for d in docs)
             if got != want:
                 s.custom_violation('sorted-MosFile-objects-not-numeric', {'got': got, 'want': want}, w)
